@@ -174,6 +174,8 @@ struct Run {
 			double w = double(n), mid = v / 2 + w / 2;
 			if (fbits < 52) { around_d(mid); around_i(mid); }
 			if (fbits < 23 && es <= 8) around_f((float)mid);
+			// eighths of the interval: discarded bits .011 / .101 / .111 (the bit below the round bit decides, nothing else set)
+			if (fbits < 50) for (int k : { 3, 5, 7 }) { double q = v + (w - v) * k / 8; fromd(q); if (q == std::floor(q)) around_i(q); }
 		}
 	}
 	static void conv_fixed(uv::Rng& g, unsigned count) {
@@ -184,13 +186,26 @@ struct Run {
 		fromd(std::numeric_limits<double>::quiet_NaN()); fromd(-std::numeric_limits<double>::quiet_NaN());
 		fromd(std::numeric_limits<double>::signaling_NaN());
 		fromd(uv::bits2double(0x7ff0000000000001ull)); fromd(uv::bits2double(0x7ff4000000000000ull)); fromd(uv::bits2double(0xfff8000000000001ull));
+		// NaNs with other payloads: quiet bit clear / set, one payload bit in each region of the fraction, all ones
+		for (ull p : { 0x7ff0000000000002ull, 0x7ff0000100000000ull, 0x7ff2000000000000ull, 0xfff0000000000400ull, 0x7ffc000000000000ull,
+		               0x7ff8000000000400ull, 0xfffa000000000000ull, 0x7fffffffffffffffull, 0xffffffffffffffffull, 0x7ff7ffffffffffffull }) fromd(uv::bits2double(p));
 		static const float sf[] = { 0.0f, -0.0f, INFINITY, -INFINITY, 1.4e-45f, -1.4e-45f, 1.17549421e-38f, 1.17549435e-38f, 3.40282347e38f, 1.0f, -1.0f, 1e-40f, -1e-40f, 5.9e-39f };
 		for (float f : sf) fromf(f);
 		fromf(std::numeric_limits<float>::quiet_NaN()); fromf(std::numeric_limits<float>::signaling_NaN());
 		fromf(uv::bits2float(0x7f800001u)); fromf(uv::bits2float(0xffc00001u));
+		for (uint32_t p : { 0x7f800002u, 0x7f801000u, 0x7f900000u, 0xff800400u, 0x7fe00000u, 0x7fc00400u, 0xffd00000u, 0x7fffffffu, 0xffffffffu, 0x7fbfffffu }) fromf(uv::bits2float(p));
 		static const long long si[] = { 0, 1, -1, 2, -2, 3, 127, -128, 128, 255, 256, 32767, -32768, 65535, 65536, 2147483647ll, -2147483648ll, 4294967295ll, 4294967296ll,
 			9007199254740991ll, 9007199254740992ll, 9007199254740993ll, 9223372036854775807ll, -9223372036854775807ll, (-9223372036854775807ll - 1) };
 		for (long long v : si) fromi(v);
+		{	// the overflow cusp of the integer routines: maxpos, maxpos + ulp/2 (the first value that must give inf / saturate),
+			// the top of the binade of MAX_EXP and the first power of two beyond it, each +-1
+			C mp(SpecificValue::maxpos); C below = mk((enc(mp) - 1) & uv::mask(nbits));
+			double vm = double(mp), vb = double(below);
+			if (vm == vm && vb == vb && vm < 9.0e18 && vm > 0) {
+				double cusp = vm + (vm - vb) / 2, top = std::ldexp(1.0, std::ilogb(vm) + 1);
+				for (double q : { vm, cusp, top, 2 * top, vm + (vm - vb), vm + 2 * (vm - vb), vm + 3 * (vm - vb) }) { around_i(q); around_i(-q); fromd(q); }
+			}
+		}
 		static const ull su[] = { 0, 1, 2, 3, 255, 256, 65535, 65536, 4294967295ull, 4294967296ull, 9007199254740993ull, 9223372036854775807ull, 9223372036854775808ull, 9223372036854775809ull, 18446744073709551615ull };
 		for (ull v : su) fromu(v);
 		for (unsigned i = 0; i < count; ++i) {
@@ -281,11 +296,32 @@ struct Run {
 		}
 		return (g.coin() ? 1ull << (nbits - 1) : 0) | (expfield(g) << fbits) | fracfield(g);
 	}
+	// the encodings on which operator++ / operator-- branch: both zeros, the zero aliases (exponent field 0), minpos / minneg
+	// and the minneg pattern with ONE other limb set (isminnegencoding compares limb by limb), the all-ones and the
+	// quiet-NaN pattern (carry out of the top limb), the neighbours of the extremes
+	static void step_fixed() {
+		if (!g_order) return;
+		constexpr unsigned bpb = 8 * sizeof(bt);
+		constexpr unsigned nl = (nbits + bpb - 1) / bpb;
+		const ull M = uv::mask(nbits), S = 1ull << (nbits - 1), FM = uv::mask(fbits);
+		const ull fixed[] = { 0, S, 1, S | 1, 2, S | 2, FM, S | FM, FM - 1, S | (FM - 1), 1ull << (fbits - 1), S | (1ull << (fbits - 1)),
+			FM + 1, S | (FM + 1), FM + 2, S | (FM + 2), M, M - 1, M - 2, M >> 1, (M >> 1) - 1, (M >> 1) - 2, S - 1 - FM, M - FM, S - 2 - FM, M - FM - 1 };
+		for (ull v : fixed) unary(v & M);
+		for (unsigned k = 0; k < nl; ++k) {
+			if (bpb * k >= 64) break;
+			for (ull limb : { ull(1), ull(1) << (bpb - 1), ull(uv::mask(bpb)) }) {
+				ull v = ((limb << (bpb * k)) & uv::mask(nbits - 1));
+				unary(v); unary(S | v); unary(v | 1); unary(S | v | 1);
+				unary((M >> 1) & ~v); unary(M & ~v);      // all ones with one limb (partly) cleared
+			}
+		}
+	}
 	static void random(ull count) {
 		uv::Rng g(uv::seed_from_env() * 1000003ull + nbits * 131ull + es * 7 + sub + 2 * sup + 4 * sat);
 		const ull M = uv::mask(nbits), S = 1ull << (nbits - 1), FM = uv::mask(fbits);
 		limits();
 		conv_fixed(g, (unsigned)(count / 8 + 50));
+		step_fixed();
 		for (ull i = 0; i < count; ++i) {
 			ull a = operand(g), b;
 			switch (g.below(10)) {
